@@ -167,6 +167,9 @@ def render_sources(r: Rel):
     return r.template.format(**items), srcs
 
 
+CORE_TOP = ("project", "star", "agg", "union", "join", "alias_cols", "scalar_union")
+
+
 def relations(k: int):
     level0 = [base("x"), base("y")]
     allr = {0: level0}
@@ -179,6 +182,8 @@ def relations(k: int):
             for w in wrappers(r, others if cost <= 3 else others[:4]):
                 if w.cost != cost:
                     continue
+                if cost >= 4 and w.tags[-1] not in CORE_TOP:
+                    continue   # the 4th (outermost) wrapper ranges over the core menu only (the full menu gives 228 k relations)
                 key = render_inline(w)
                 if key in seen:
                     continue
@@ -276,8 +281,9 @@ def run(ctx: Ctx) -> None:
         {
             "evaluations": res["evaluations"],
             "distinct_nontrivial": res["nontrivial"],
-            "rule": f"every relation built from base tables x(a,b), y(b,c) with <= {k} wrappers (projection expressions, *, t.*, constants, "
-                    "aggregates, windows, CASE, column swap + filter, scalar subquery, self join of the same inner query through two aliases, "
+            "rule": f"every relation built from base tables x(a,b), y(b,c) with <= {min(k, 3)} wrappers" + (" plus a 4th, outermost wrapper from the core menu " + "/".join(CORE_TOP) if k >= 4 else "")
+                    + " (projection expressions, *, t.*, constants, "
+                    "aggregates, windows, CASE, column swap + filter, scalar / IN subqueries incl. set-operation bodies, alias column lists, self join of the same inner query through two aliases, "
                     "join with every cheaper relation, UNION ALL with every relation of equal arity), each in 4 presentations (inline derived "
                     "tables, CTEs with shared CTEs reused, first-level inner queries through sources=, aliases renamed); per output column "
                     "lineage(col) leaves == compositional ground truth == lineage(None)[col]. non-trivial = relations in which a source is "
